@@ -1815,14 +1815,20 @@ impl Blockchain {
             let block = self.blocks.get(&delete_block_hash).unwrap();
             let block_filename = storage.generate_block_filepath(block);
 
-            // remove slips from wallet
-            {
-                let mut wallet = self.wallet_lock.write().await;
+            // only a block of the longest chain has been applied to the ledger and the wallet. a block that
+            // was merely stored next to it (nobody validated it) names whatever slips its sender wrote
+            if block.in_longest_chain {
+                // remove slips from wallet
+                {
+                    let mut wallet = self.wallet_lock.write().await;
 
-                wallet_update_status = wallet.delete_block(block);
+                    wallet_update_status = wallet.delete_block(block);
+                }
+                // removes utxoset data
+                block.delete(&mut self.utxoset).await;
+            } else {
+                wallet_update_status = WALLET_NOT_UPDATED;
             }
-            // removes utxoset data
-            block.delete(&mut self.utxoset).await;
 
             // deletes block from disk
             storage
